@@ -3,6 +3,8 @@
 // Built from /repo's working tree with -fno-access-control (private static helpers of ftp::client).
 #include "common.hpp"
 #include <locale>
+#include <optional>
+#include <chrono>
 #include <cstdlib>
 #include <ftp/ftp.hpp>
 #include <ftp/detail/utils.hpp>
@@ -39,6 +41,19 @@ struct rec_sink : ftp::output_stream
 };
 
 std::string opt(bool ok, unsigned long long v) { return ok ? "some " + std::to_string(v) : "none"; }
+
+std::string command_name(command c)
+{
+    switch (c)
+    {
+#define V(x) case command::x: return #x;
+        V(open) V(mode) V(active) V(passive) V(user) V(cd) V(cdup) V(ls) V(put) V(get) V(rename) V(pwd)
+        V(mkdir) V(rmdir) V(del) V(stat) V(syst) V(type) V(binary) V(ascii) V(size) V(noop) V(rhelp)
+        V(logout) V(close) V(help) V(exit)
+#undef V
+        default: return "enum:" + std::to_string(static_cast<int>(c));
+    }
+}
 
 std::string run(const std::vector<std::string> & a)
 {
@@ -77,6 +92,27 @@ std::string run(const std::vector<std::string> & a)
         // begin()/end() and get_replies() must agree
         if (static_cast<std::size_t>(rs.end() - rs.begin()) != rs.get_replies().size()) members += "!";
         return std::to_string(rs.is_positive()) + " " + hex(rs.get_status_string()) + " " + members;
+    }
+    if (op == "aggq" && n == 2)
+    {
+        // aggq <queries 0/1 per position, one more than members> <members>: the aggregate is asked is_positive() (and the status
+        // string) BEFORE member i is appended wherever the i-th flag is 1 (position 0 = while it is still empty); every answer,
+        // the final answer, and the final answer of a copy made half-way are reported
+        std::vector<std::string> items = list(a[2]);
+        if (a[1].size() != items.size() + 1) return "bad-op";
+        ftp::replies rs; std::optional<ftp::replies> copy;
+        std::string answers;
+        for (std::size_t i = 0; i <= items.size(); i++)
+        {
+            if (a[1][i] == '1') answers += rs.is_positive() ? "1" : "0"; else answers += "-";
+            if (i == items.size() / 2) copy = rs;
+            if (i == items.size()) break;
+            std::vector<std::string> p = split(items[i], ':');
+            if (p.size() != 2 || !nat(p[0], v) || !unhex(p[1], s)) return "bad-op";
+            rs.append(ftp::reply(static_cast<std::uint16_t>(v), s));
+            if (copy && i >= items.size() / 2) copy->append(ftp::reply(static_cast<std::uint16_t>(v), s));
+        }
+        return answers + " " + std::to_string(rs.is_positive()) + std::to_string(copy->is_positive()) + " " + hex(rs.get_status_string()) + " " + hex(copy->get_status_string());
     }
     if (op == "size" && n == 2 && nat(a[1], v) && unhex(a[2], s))
     {
@@ -179,6 +215,46 @@ std::string run(const std::vector<std::string> & a)
         os.flush();
         if (sink.flushes != 1) return "flushes:" + std::to_string(sink.flushes);
         return hex(sink.bytes);
+    }
+    if (op == "verbsweep" && n == 3)
+    {
+        // verbsweep <shard> <nshards> <seconds>: every 4-byte first token without white space, quote or backslash whose first
+        // two bytes fall into this shard (visited in a scattered order, for at most <seconds>): which ones does parse_command
+        // accept, and as what?  The complete sweep of all shards is the 4-byte instance of "nothing but the documented verbs".
+        unsigned long long shard, nshards, secs;
+        if (!nat(a[1], shard) || !nat(a[2], nshards) || !nat(a[3], secs) || nshards == 0) return "bad-op";
+        auto bad = [](unsigned b) { return b == ' ' || (b >= 9 && b <= 13) || b == '"' || b == '\\' || b == 0; };
+        auto t0 = std::chrono::steady_clock::now();
+        std::string acc; std::size_t done = 0, total = 0, nacc = 0;
+        std::string tok(4, 'a');
+        for (unsigned long long a2 = shard; a2 < 65536; a2 += nshards) total++;
+        for (unsigned long long a2 = shard; a2 < 65536; a2 += nshards)
+        {
+            unsigned idx = static_cast<unsigned>((a2 * 40503ull + 12345ull) & 0xFFFF);   // odd multiplier: a permutation of 0..65535
+            unsigned b0 = idx >> 8, b1 = idx & 255;
+            done++;
+            if (bad(b0) || bad(b1)) continue;
+            tok[0] = static_cast<char>(b0); tok[1] = static_cast<char>(b1);
+            for (unsigned b2 = 1; b2 < 256; b2++)
+            {
+                if (bad(b2)) continue;
+                tok[2] = static_cast<char>(b2);
+                for (unsigned b3 = 1; b3 < 256; b3++)
+                {
+                    if (bad(b3)) continue;
+                    tok[3] = static_cast<char>(b3);
+                    try
+                    {
+                        auto r = parse_command(tok);
+                        if (nacc++ < 400) { if (!acc.empty()) acc += ","; acc += hex(tok) + "=" + command_name(r.first) + "." + std::to_string(r.second.size()); }
+                    }
+                    catch (const cmdline_exception &) {}
+                    catch (...) { if (nacc++ < 400) { if (!acc.empty()) acc += ","; acc += hex(tok) + "=other"; } }
+                }
+            }
+            if (std::chrono::steady_clock::now() - t0 > std::chrono::seconds(secs)) break;
+        }
+        return "done:" + std::to_string(done) + "/" + std::to_string(total) + " n:" + std::to_string(nacc) + " acc:" + (acc.empty() ? "-" : acc);
     }
     if ((op == "cmd" && n == 1 && unhex(a[1], s)) || (op == "cmdrt" && n == 3))
     {
